@@ -286,6 +286,31 @@ def main(tier):
                           {"kind": "fault", "fault": f, "via": via, "doc": m["doc"], "main": text, "files": files,
                            "sites": sites, "block_spans": bs, "observed": o, "signature": sig}, sig)
     chk.extra["faults_injected_by_kind"] = kinds
+    # a second singleton child in hosts of every kind, the two copies with different texts
+    hosts = {"info": ("INFO\n  Title \"T\"\n  Version 1\n", 1), "tag": ("TAG @zt\n", 1), "http_method": ("GET /zh\n", 1),
+             "url_method": ("URL /zu\n  GET\n", 2), "rpc_method": ("URL /zr\n  Protocol json-rpc-2.0\n  Method zm\n", 2), "server": ("SERVER @zs\n  BaseUrl \"http://z\"\n", 1)}
+    tails = {"info": "", "tag": "", "http_method": "  200 any\n", "url_method": "    200 any\n", "rpc_method": "    Result\n    {}\n", "server": ""}
+    kcases, kmeta = [], {}
+    for hn, (head, dep) in hosts.items():
+        for form in ("bare", "parens", "mixed"):
+            d1 = "  " * dep + "Description\n" + ("  " * (dep + 1) + "first text\n" if form != "parens" else "  " * dep + "(\n" + "  " * (dep + 1) + "first text\n" + "  " * dep + ")\n")
+            d2 = "  " * dep + "Description\n" + ("  " * (dep + 1) + "second text\n" if form == "bare" else "  " * dep + "(\n" + "  " * (dep + 1) + "second text\n" + "  " * dep + ")\n")
+            one = "JSIGHT 0.3\n" + head + d1 + tails[hn]
+            two = "JSIGHT 0.3\n" + head + d1 + d2 + tails[hn]
+            kcases += [rel.case("kd1_%s_%s" % (hn, form), one), rel.case("kd2_%s_%s" % (hn, form), two)]
+            kmeta["kd2_%s_%s" % (hn, form)] = (hn, form, two, "kd1_%s_%s" % (hn, form))
+    kobs = harness("run", kcases)
+    for cid, (hn, form, text, oneid) in kmeta.items():
+        if kobs[oneid]["outcome"] != "ok":
+            continue                   # the host does not take a Description at all
+        chk.evaluations += 1
+        chk.traces += 1
+        chk.nontrivial.add(cid)
+        if kobs[cid]["outcome"] != "error":
+            sig = {"fault": "dup_child:Description", "via": "kernel", "what": "not rejected", "block": hn, "detail": form, "outcome": kobs[cid]["outcome"], "msg": "", "frames": ""}
+            chk.violation("a second Description in %s (%s) is accepted: %s | document:\n%s" % (hn, form, rel.describe(kobs[cid]), text),
+                          {"kind": "fault", "fault": {"f": "dup_child", "i": 0, "x": "Description"}, "via": "kernel", "doc": [], "main": text, "files": {},
+                           "sites": [1], "block_spans": [[0, len(text)]], "observed": kobs[cid], "signature": sig}, sig)
     import fixrel
     fixrel.c11(chk, tier)
     import pathspec
